@@ -127,6 +127,9 @@ func init() {
 				c["tm"], c["budgetMs"] = "CertTrace", 60000
 				res = append(res, c)
 			}
+			// conflict analyses and certificate lines of more than a thousand literals (planted, satisfiable:
+			// every emitted line must still follow by unit propagation)
+			res = append(res, wideClauseCases(env, env.Pick(80, 800), true)...)
 			res = append(res, scanCandidates(env, "cnf", env.Pick(10000, 150000), false, scanCNF(true))...)
 			return res
 		},
